@@ -95,6 +95,8 @@ class ProgramRunner:
         world = seq.World(cfg)
         for ev in cfg.prefix:
             world.apply(ev)
+        for ev in self.program.get("pre_ctx", ()):
+            world.apply(ev)  # history before the context of the threads (e.g. an earlier complete buffered session)
         ctx = self.program.get("ctx")
         if ctx is not None:
             cap = ctx[1]
@@ -281,6 +283,7 @@ def make_violation(program, v, bound, reduction):
                        "program": {"label": program["label"], "cfg": cfg_to_doc(program["cfg"]),
                                    "ctx": program.get("ctx"), "threads": repr(program["threads"]),
                                    "setup": repr(program.get("setup", ())),
+                                   "pre_ctx": repr(program.get("pre_ctx", ())),
                                    "pair": program["pair"], "topology": program.get("topology"),
                                    "property": program["property"], "module": program["module"],
                                    "only_kinds": list(program["only_kinds"]) if program.get("only_kinds") else None,
@@ -293,7 +296,8 @@ def program_from_doc(d):
     from .seqcheck import _lit, cfg_from_doc
 
     return {"label": d["label"], "cfg": cfg_from_doc(d["cfg"]), "ctx": tuple(d["ctx"]) if d.get("ctx") else None,
-            "threads": _lit(d["threads"]), "setup": _lit(d.get("setup", "()")), "pair": d["pair"],
+            "threads": _lit(d["threads"]), "setup": _lit(d.get("setup", "()")), "pre_ctx": _lit(d.get("pre_ctx", "()")),
+            "pair": d["pair"],
             "topology": d.get("topology"), "property": d["property"], "module": d["module"],
             "only_kinds": tuple(d["only_kinds"]) if d.get("only_kinds") else None,
             "final_views": d.get("final_views", True)}
